@@ -62,6 +62,9 @@ SCRIPTS['malt.pyct.transpiler._PythonFnFactory.instantiate'] = ('bounded/c09_int
 for _f in ('_TransformedFnCache.has', '_TransformedFnCache.__getitem__', 'CodeObjectCache._get_key', 'UnboundInstanceCache._get_key'):
   SCRIPTS['malt.pyct.cache.' + _f] = ('bounded/rt_cache.py', ['0', 'quick'])
 
+for _f in ('visit_FunctionDef', 'visit_Lambda'):
+  SCRIPTS['malt.converters.functions.FunctionTransformer.' + _f] = ('bounded/rt_embed.py', ['0', 'quick'])
+
 _cache = {}
 
 
